@@ -421,7 +421,7 @@ fn c11_sorts<T: Elem + Clone + Ord + Default>(ctx: &mut Ctx, shape: (usize, usiz
 }
 
 pub fn run_c11(ctx: &mut Ctx) {
-    let n = nsel(ctx, 2, 2, 3, 4, 5);
+    let n = nsel(ctx, 2, 3, 3, 4, 6);
     for shape in shapes(n) {
         for axis in [Axis::Row, Axis::Col] {
             for ty in 0..3 {
@@ -653,7 +653,7 @@ fn c12_case<T: Elem + Clone + Ord>(ctx: &mut Ctx, shape: (usize, usize), lk: Lea
 }
 
 pub fn run_c12(ctx: &mut Ctx) {
-    let n = nsel(ctx, 2, 3, 3, 4, 6);
+    let n = nsel(ctx, 2, 3, 3, 4, 8);
     for shape in shapes(n) {
         if shape.0 == 0 {
             continue;
